@@ -11,9 +11,11 @@ A float is its 64-bit pattern (`Nat`, what crosses the line protocol); its exact
   zeros) spelled out, and otherwise THE EXACT RATIONAL RESULT, ROUNDED ONCE with `ofRatRNE`.  This is
   what IEEE-754 requires of `+ - * /` (and what Rust's `f64` operators are on every supported target);
   it is a definition here, tied to the hardware by the differential run of `./check C07`.
+* `F64.rem` (C `fmod`: the exact `x − y·trunc(x/y)`), `F64.divEuclid`, `F64.remEuclid` (the standard
+  library's compositions of `/`, `trunc`, `%`, `±1.0`, `abs`).
 * `F64.ieeeOps` — the `FloatOps` structure of the tower whose float level is this arithmetic (the
-  remaining fields — `%`, `div_euclid`, `rem_euclid`, powers, complex arithmetic — are inherited from
-  an arbitrary structure: they stay parameters).
+  remaining fields — powers, complex arithmetic — are inherited from an arbitrary structure: they
+  stay parameters).
 
 Core Lean only.
 -/
@@ -111,8 +113,62 @@ def div (a b : Nat) : Nat :=
   | .fin _, .inf _ => ZERO s
   | .fin x, .fin y => if y = 0 then (if x = 0 then NAN else INF s) else roundSigned (x / y) s
 
-/-- the tower's float structure with IEEE-754 `+ - * /`, unary minus, the correctly rounded
-conversions and the IEEE decoding; everything else is taken from `R` (stays abstract) -/
+/-- rounding of a rational toward zero -/
+def truncQ (q : Rat) : Int := if 0 ≤ q then q.floor else q.ceil
+
+/-- `x % y` (C `fmod`): `x − y·trunc(x/y)`, which is exactly representable (the rounding below
+never rounds; not proved here, checked differentially); a zero result has the sign of `x`;
+`x % ±∞ = x`; `±∞ % y` and `x % 0` are NaN -/
+def rem (a b : Nat) : Nat :=
+  match viewBits a, viewBits b with
+  | .nan, _ => NAN
+  | _, .nan => NAN
+  | .inf _, _ => NAN
+  | .fin _, .inf _ => a
+  | .fin x, .fin y =>
+    if y = 0 then NAN else roundSigned (x - y * ((truncQ (x / y) : Int) : Rat)) (signBit a)
+
+/-- `f64::trunc` (exact; keeps the sign of a zero result) -/
+def trunc (a : Nat) : Nat :=
+  match viewBits a with
+  | .fin x => roundSigned ((truncQ x : Int) : Rat) (signBit a)
+  | _ => a
+
+/-- `f64::abs`: clear the sign bit -/
+def abs (a : Nat) : Nat := if signBit a then a - 2 ^ 63 else a
+
+/-- `a < 0.0` (false for NaN and for −0) -/
+def ltZero (a : Nat) : Bool :=
+  match viewBits a with
+  | .fin x => decide (x < 0)
+  | .inf s => s
+  | .nan => false
+
+/-- `a > 0.0` -/
+def gtZero (a : Nat) : Bool :=
+  match viewBits a with
+  | .fin x => decide (0 < x)
+  | .inf s => !s
+  | .nan => false
+
+/-- the float 1.0 -/
+def ONE : Nat := 0x3FF0000000000000
+
+/-- `f64::div_euclid` as the standard library computes it:
+`q = (x / y).trunc(); if x % y < 0.0 { if y > 0.0 { q − 1.0 } else { q + 1.0 } } else { q }` —
+every step an IEEE operation of this file -/
+def divEuclid (a b : Nat) : Nat :=
+  let q := trunc (div a b)
+  if ltZero (rem a b) then (if gtZero b then sub q ONE else add q ONE) else q
+
+/-- `f64::rem_euclid`: `r = x % y; if r < 0.0 { r + y.abs() } else { r }` -/
+def remEuclid (a b : Nat) : Nat :=
+  let r := rem a b
+  if ltZero r then add r (abs b) else r
+
+/-- the tower's float structure with IEEE-754 `+ - * / %`, `div_euclid`, `rem_euclid`, unary minus,
+the correctly rounded conversions and the IEEE decoding; everything else (powers, complex
+arithmetic) is taken from `R` (stays abstract) -/
 def ieeeOps {C : Type} (R : FloatOps Nat C) : FloatOps Nat C :=
   { R with
     view := viewBits
@@ -123,6 +179,9 @@ def ieeeOps {C : Type} (R : FloatOps Nat C) : FloatOps Nat C :=
     sub := sub
     mul := mul
     div := div
+    rem := rem
+    divEuclid := divEuclid
+    remEuclid := remEuclid
     neg := neg }
 
 end Noulith.F64
